@@ -14,6 +14,8 @@ Not decided: the instants (wall-clock time, sleep overshoot and drift).
 import ast
 
 from sa.model import AnalysisError, walk_shallow, dotted, norm
+from sa.boolflow import simulate, must_atoms
+from sa.util import expand_locals, namedtuple_fields, ctor_fields
 from sa.util import cfg_of, guarded_by_edge, shallow_calls, local_defs, resolve_name, const_str, strip_not, compare_parts
 from sa import queues
 from sa.context import callgraph
@@ -76,31 +78,19 @@ def check(run, model, tier):
               any(isinstance(c.func, ast.Attribute) and c.func.attr == 'clear' and 'task_run_event' in norm(c.func.value) for c in n.calls())]
     run.floor('timer self-clear sites', len(clears), 1)
     for cl in clears:
-        tests = [x for x in g.nodes if x.kind == 'test' and x is not h]
-        ge = None
-        nz = None
-        for x in tests:
-            cp = compare_parts(x.ast)
-            if not cp:
-                continue
-            l, op, r = cp
-            if isinstance(l, ast.Name) and l.id == cntp and dotted(r) == specp + '.total_times':
-                if guarded_by_edge(g, cl, x, 'true'):
-                    ge = (x, op)
-            elif isinstance(r, ast.Name) and r.id == cntp and dotted(l) == specp + '.total_times':
-                if guarded_by_edge(g, cl, x, 'true'):
-                    ge = (x, {ast.LtE: ast.GtE, ast.Lt: ast.Gt, ast.Eq: ast.Eq, ast.GtE: ast.LtE, ast.Gt: ast.Lt}.get(op, op))
-            if dotted(l) == specp + '.total_times' and isinstance(r, ast.Constant) and r.value == 0:
-                if (op is ast.NotEq and guarded_by_edge(g, cl, x, 'true')) or (op is ast.Eq and guarded_by_edge(g, cl, x, 'false')) \
-                        or (op is ast.Gt and guarded_by_edge(g, cl, x, 'true')):
-                    nz = x
-        ok = ge is not None and ge[1] in (ast.GtE, ast.Eq)
+        # the elementary conditions that hold whenever the self-clear executes (and/or/not flattened, single-definition locals expanded)
+        atoms = must_atoms(g, cl, t.node, params=t.params)
+        tot = specp + '.total_times'
+        rel = [op for (l, op, r) in atoms if l == cntp and r == tot]
+        ok = any(op in ('GtE', 'Eq') for op in rel) and not any(op in ('Gt', 'Lt', 'LtE', 'NotEq') for op in rel)
         run.inst('COUNT.timer-loop', t, 'self-clear when counter >= total', ok,
                  '' if ok else ('the timer clears its own run flag under `counter %s total`: with counting from 0 in steps of 1 that is not the n-th activation, '
-                                'the source fires a different number of times than requested' % ({ast.Gt: '>', ast.Lt: '<', ast.LtE: '<=', ast.NotEq: '!='}.get(ge[1], '?') if ge else '<no test>')),
+                                'the source fires a different number of times than requested' % ('/'.join(sorted(rel)) if rel else '<no test>')),
                  node=cl.ast, obligation=True)
-        run.inst('COUNT.timer-loop', t, 'never self-clears when total == 0 (forever)', nz is not None,
-                 '' if nz is not None else 'the self-clear is not guarded by total != 0: times=0 no longer means "forever"', node=cl.ast, obligation=True)
+        nz = any(l == tot and ((op == 'NotEq' and r == '0') or (op == 'Gt' and r == '0') or (op == 'GtE' and r == '1')) for (l, op, r) in atoms) \
+            or any(l == tot and op == 'Truthy' for (l, op, r) in atoms)
+        run.inst('COUNT.timer-loop', t, 'never self-clears when total == 0 (forever)', nz,
+                 '' if nz else 'the self-clear is not guarded by total != 0: times=0 no longer means "forever"', node=cl.ast, obligation=True)
         ok = all(g.dominates(i, cl) for i in incs) and all(any(g.dominates(p, cl) for p in posts) or True for _ in [0])
         run.inst('COUNT.timer-loop', t, 'the increment precedes the termination test', ok, 'termination is tested before the activation is counted', node=cl.ast, obligation=True)
     # ---- ORDER per iteration
@@ -113,36 +103,59 @@ def check(run, model, tier):
         ok = all(g.exists_path(s, x) for x in retests) and not any(g.exists_path(p, s, avoiding=[h]) for p in posts)
         run.inst('ORDER.timer-iter', t, 'sleep before re-test and post within an iteration', ok,
                  '' if ok else 'within one iteration the sleep follows the post: the first event fires immediately even when deferred', node=s.ast, obligation=True)
-        # guarded by the deferred local
-        dt = [x for x in g.nodes if x.kind == 'test' and isinstance(x.ast, ast.Name) and x.ast.id == defp]
-        ok = len(dt) == 1 and guarded_by_edge(g, s, dt[0], 'true')
-        run.inst('ORDER.timer-iter', t, 'sleep only when (locally) deferred', ok, 'the sleep is not controlled by the deferred flag', node=s.ast, obligation=True)
-        if len(dt) == 1:
-            # the other branch only sets the local flag
-            succ = [m for m, l in g.succ[dt[0]] if l == 'false']
-            ok = bool(succ) and succ[0].kind == 'stmt' and isinstance(succ[0].ast, ast.Assign) and isinstance(succ[0].ast.targets[0], ast.Name) \
-                and succ[0].ast.targets[0].id == defp and isinstance(succ[0].ast.value, ast.Constant) and succ[0].ast.value.value is True
-            run.inst('ORDER.timer-iter', t, 'non-deferred first pass flips the flag so later passes sleep', ok,
-                     '' if ok else 'after a non-deferred first activation the thread does not start sleeping: it posts in a tight loop', obligation=True)
-            sc = queues.count(g, sleeps, start=[m for m, l in g.succ[dt[0]] if l == 'true'][0], end=h)
-            run.inst('ORDER.timer-iter', t, 'one sleep per deferred iteration', sc == (1, 1) or (sc and sc[1] == 1), 'sleeps per iteration %s' % (sc,), obligation=True)
         # sleep argument is the period
         for c in s.calls():
             if norm(c.func) in ('time.sleep', 'sleep'):
                 ok = len(c.args) == 1 and dotted(c.args[0]) == specp + '.period'
                 run.inst('WIRING.timer', t, 'sleeps for spec.period', ok, 'sleep argument is %s' % norm(c), node=c, obligation=True)
+    # first pass / later passes: constant propagation of the boolean locals for deferred = True and deferred = False
+    for dval in (True, False):
+        first = simulate(g, g.entry, {h}, {defp: dval})
+        if not first:
+            raise AnalysisError('timer thread: the loop head is not reachable')
+        for it_no in (1, 2):
+            nxt = []
+            verdicts = set()
+            for _n, env, _v in (first if it_no == 1 else second):
+                res = simulate(g, start, set(posts) | {h, g.exit}, env, track=sleeps)
+                for stop, env2, vis in res:
+                    if stop in posts:
+                        verdicts.add(bool(vis))
+                        # continue this iteration to the head for the next pass
+                        for stop2, env3, _v2 in simulate(g, stop, {h, g.exit}, env2):
+                            if stop2 is h:
+                                nxt.append((stop2, env3, None))
+            want = dval if it_no == 1 else True
+            ok = verdicts == {want}
+            what = ('pass %d of a %s source %s' % (it_no, 'deferred' if dval else 'non-deferred', 'sleeps one period before posting' if want else 'posts without sleeping'))
+            run.inst('ORDER.timer-iter', t, what, ok,
+                     '' if ok else ('on %s the timer thread %s (decided by propagating the boolean locals along every path to the post): %s'
+                                    % ('the first pass' if it_no == 1 else 'later passes', 'may post without having slept' if want else 'sleeps before its first post',
+                                       'a deferred source fires immediately' if (want and it_no == 1) else ('the source posts in a tight loop' if want else 'a non-deferred source is delayed by one period'))),
+                     node=sleeps[0].ast if sleeps else None, obligation=True)
+            second = nxt
+    for s_ in sleeps:
+        sc = queues.count(g, [s_], start=start, end=h)
+        run.inst('ORDER.timer-iter', t, 'at most one sleep per iteration', sc is not None and sc[1] <= 1, 'sleeps per iteration %s' % (sc,), obligation=True)
     # tag -> post method, event argument
-    tagt = [x for x in g.nodes if x.kind == 'test' and isinstance(x.ast, ast.Compare) and dotted(x.ast.left) == specp + '.queue_type'
-            and isinstance(x.ast.ops[0], ast.Eq) and const_str(x.ast.comparators[0]) in ('fifo', 'lifo')]
+    xp = lambda e_: expand_locals(e_, t.node, params=t.params)
+    tagt = []
+    for x in g.nodes:
+        if x.kind == 'test':
+            xa = xp(x.ast)
+            if isinstance(xa, ast.Compare) and dotted(xa.left) == specp + '.queue_type' and isinstance(xa.ops[0], (ast.Eq, ast.NotEq)) \
+                    and const_str(xa.comparators[0]) in ('fifo', 'lifo'):
+                tagt.append((x, xa))
     if len(tagt) != 1:
         raise AnalysisError('timer: tag test not found')
-    tag = const_str(tagt[0].ast.comparators[0])
+    tag = const_str(tagt[0][1].comparators[0])
+    eq_label = 'true' if isinstance(tagt[0][1].ops[0], ast.Eq) else 'false'
     for p in posts:
         for c in p.calls():
             if isinstance(c.func, ast.Attribute) and c.func.attr in ('post_fifo', 'post_lifo'):
-                on_true = guarded_by_edge(g, p, tagt[0], 'true')
+                on_true = guarded_by_edge(g, p, tagt[0][0], eq_label)
                 want = ('post_' + tag) if on_true else ('post_' + ('lifo' if tag == 'fifo' else 'fifo'))
-                ok = c.func.attr == want and len(c.args) == 1 and dotted(c.args[0]) == specp + '.event' and not c.keywords
+                ok = c.func.attr == want and len(c.args) == 1 and dotted(xp(c.args[0])) == specp + '.event' and not c.keywords
                 run.inst('WIRING.timer', t, 'tag %s -> %s(spec.event)' % (tag if on_true else 'other', want), ok,
                          '' if ok else 'under tag %s the timer calls %s' % (tag if on_true else 'other', norm(c)), node=c, obligation=True)
     # ---- wiring in __post_event: the spec fields
@@ -194,12 +207,36 @@ def check(run, model, tier):
         run.inst('WIRING.timer', f, '%s defaults: times None -> 0, deferred None -> True' % nm, ok,
                  '' if ok else 'defaults are %s' % {k: norm(v) for k, v in dflt.items()}, obligation=True)
         # returned id is what __post_event returned
-        rets = [n for n in walk_shallow(f.node) if isinstance(n, ast.Return)]
-        ok = bool(rets) and all(isinstance(r.value, ast.Name) and any(x is c for x in fd.get(r.value.id, [])) for r in rets)
+        # path rule: every return reachable from the __post_event call hands back that call's result (other paths made no timed source)
+        gf = cfg_of(f)
+        ncall = [n for n in gf.nodes if n.kind not in ('entry', 'exit', 'xexit', 'def') and any(x is c for x in n.calls())]
+        rnodes = [n for n in gf.nodes if n.kind == 'stmt' and isinstance(n.ast, ast.Return)]
+        ok = bool(ncall)
+        n_after = 0
+        for r in rnodes:
+            if not ncall or not (r is ncall[0] or gf.exists_path(ncall[0], r)):
+                continue
+            n_after += 1
+            v = r.ast.value
+            if v is c:
+                continue
+            if isinstance(v, ast.Name) and isinstance(ncall[0].ast, ast.Assign) and ncall[0].ast.value is c and \
+                    any(isinstance(t, ast.Name) and t.id == v.id for t in ncall[0].ast.targets):
+                redefs = [o for o in gf.nodes if o is not ncall[0] and o.kind in ('stmt', 'for') and
+                          any(isinstance(t, ast.Name) and isinstance(t.ctx, ast.Store) and t.id == v.id for t in ast.walk(o.ast if o.kind == 'stmt' else o.stmt.target))]
+                if not any(gf.exists_path(ncall[0], o) and gf.exists_path(o, r) for o in redefs):
+                    continue
+            ok = False
+        falls = [p_ for p_, lab in gf.pred[gf.exit] if lab != 'return' and ncall and (p_ is ncall[0] or gf.exists_path(ncall[0], p_))]
+        ok = ok and n_after >= 1 and not falls
         run.inst('WIRING.timer', f, '%s returns the source id' % nm, ok, 'the id of the timed source is not returned', obligation=True)
     # __post_event returns thread.name which is what is tracked
     rets = [n for n in walk_shallow(pe.node) if isinstance(n, ast.Return)]
     tracked = [c for c in shallow_calls(pe.node) if isinstance(c.func, ast.Attribute) and c.func.attr == 'PostedEvent']
-    ok = bool(rets) and bool(tracked) and all(norm(r.value) == norm(tracked[0].args[2] if len(tracked[0].args) > 2 else None) for r in rets if r.value is not None)
+    pfields = namedtuple_fields(model, 'PostedEvent') or []
+    idarg = None
+    if tracked and len(pfields) >= 3:
+        idarg = ctor_fields(tracked[0], pfields).get(pfields[2])
+    ok = bool(rets) and idarg is not None and all(norm(r.value) == norm(idarg) for r in rets if r.value is not None)
     run.inst('WIRING.timer', pe, 'the returned id is the id recorded for cancel', ok, 'returned id and tracked id differ', obligation=True)
     run.assume('time.sleep(p) returns after at least p seconds; absent cancellation nobody else clears the source\'s run flag')
